@@ -106,7 +106,7 @@ AGG_PROJECT = {
     "count": (NUM + ("str",), "int", "zn_empty"),
     "size": (NUM + ("str", "bool"), "int", "zn_empty"),
     "_size": ((), "int", "zn_empty"),
-    "nunique": (NUM + ("str",), "int", "no"),
+    "nunique": (NUM + ("str",), "int", "zn_empty"),
     "median": (NUM, "float", "null"),
     "std": (NUM, "float", "null1"),
     "var": (NUM, "float", "null1"),
